@@ -22,7 +22,7 @@ BY1 = {"n": 4, "tag": 93}
 BY2 = {"n": 13, "tag": 94}
 TARGET = "target-key"
 
-OPS = ["write", "write_hash", "writer_session", "writer_session_mmap", "read", "read_hash", "stream", "copy", "copy_hash", "hard_link", "metadata", "list",
+OPS = ["write", "write_existing_content", "write_hash", "writer_session", "writer_session_mmap", "read", "read_hash", "stream", "copy", "copy_hash", "hard_link", "metadata", "list",
        "remove", "remove_hash", "remove_fully", "clear", "exists"]
 
 
@@ -36,6 +36,9 @@ def program(op, cache, dest, side):
     g = {"gen": [NEW["n"], NEW["tag"]]}
     if op == "write":
         return [{"op": "write" + suf, "cache": cache, "key": TARGET, "data": g}]
+    if op == "write_existing_content":
+        # a second key for bytes that are already stored (and referenced by the target key)
+        return [{"op": "write" + suf, "cache": cache, "key": "second-key", "data": {"gen": [OLD["n"], OLD["tag"]]}}]
     if op == "write_hash":
         return [{"op": "write_hash" + suf, "cache": cache, "data": g}]
     if op in ("writer_session", "writer_session_mmap"):
@@ -97,6 +100,10 @@ def new_models(op, old, window):
         new = old.clone()
         new.write(TARGET, sri(NEW), d, size=NEW["n"], time=window if op == "write" else 77)
         out = [mid, new]
+    elif op == "write_existing_content":
+        new = old.clone()
+        new.write("second-key", sri(OLD), ref.gen(OLD["n"], OLD["tag"]), size=OLD["n"], time=window)
+        out = [new]
     elif op == "write_hash":
         new = old.clone()
         new.content[sri(NEW)] = d
@@ -180,7 +187,7 @@ def worker(ctx, job):
     if store is None:
         store = ctx.__dict__["_c13"] = build_init(ctx, cache)
     init_snap, old = store
-    keys_ = [TARGET, "bystander-1", "bystander-2"]
+    keys_ = [TARGET, "bystander-1", "bystander-2", "second-key"]
     addrs = [sri(OLD), sri(NEW), sri(BY1), sri(BY2)]
 
     def run_one(faults):
@@ -240,7 +247,7 @@ def worker(ctx, job):
             pass  # every entry is the operated object: only validity of what is left is checked
         else:
             cands = [old] + cands_new
-            if "ok" in last and op in ("write", "write_hash", "writer_session", "writer_session_mmap", "remove", "remove_hash", "remove_fully"):
+            if "ok" in last and op in ("write", "write_existing_content", "write_hash", "writer_session", "writer_session_mmap", "remove", "remove_hash", "remove_fully"):
                 cands = cands_new[-1:]   # success must be truthful: the full effect is there
             okc = None
             diffs = []
